@@ -1033,6 +1033,7 @@ static int QSexact_basis_status (mpq_QSdata * p_mpq,
 	mpq_EGlpNumInitVar (fi.totinfeas);
 	EGtimerReset (&local_timer);
 	EGtimerStart (&local_timer);
+	QSX_TRACE ("bstatus_in", *status, 0, 0, 0, 0, 0, basis);
 	EGcallD(mpq_QSload_basis (p_mpq, basis));
 	if (p_mpq->cache) 
 	{
